@@ -553,6 +553,48 @@ def r11_trailer_errors_count(ctx):
                  % (lvl, cname, 'SE' if lvl == 'st' else 'GE', 'set' if lvl == 'st' else 'group'))
 
 
+def r12_addressed_to_sender(ctx):
+    """the acknowledgement goes back to the sender: in the ISA and GS that visit_root_pre builds, the sender fields carry
+    the received receiver and the receiver fields the received sender (ISA05/06 <-> ISA07/08, GS02 <-> GS03).  The
+    position of every value is derived from the construction (elements of the literal the Segment starts with, then
+    one per append; or the constant designator of set) and its source from the get_value designator it reads."""
+    want = {('ISA', 5): 'ISA07', ('ISA', 6): 'ISA08', ('ISA', 7): 'ISA05', ('ISA', 8): 'ISA06', ('GS', 2): 'GS03', ('GS', 3): 'GS02'}
+    for mod, cname in (('error_997', 'error_997_visitor'), ('error_999', 'error_999_visitor')):
+        fn = ctx.func(mod, cname + '.visit_root_pre')
+        segs = {}   # local name -> [segment id, next position]
+        got = {}
+        po = A.preorder(fn)
+        for st in sorted([x for x in ast.walk(fn) if isinstance(x, ast.stmt)], key=lambda x: po[id(x)]):
+            if isinstance(st, ast.Assign) and isinstance(st.targets[0], ast.Name) and isinstance(st.value, ast.Call) \
+                    and A.call_target(st.value)[1] == 'Segment' and st.value.args and A.is_str(st.value.args[0]):
+                txt = st.value.args[0].value
+                parts = txt.rstrip('*').split('*') if txt else ['']
+                segs[st.targets[0].id] = [parts[0], len(parts)]
+            elif isinstance(st, ast.Expr) and isinstance(st.value, ast.Call):
+                r, m = A.call_target(st.value)
+                if r in segs and m == 'append' and st.value.args:
+                    sid, pos = segs[r]
+                    segs[r][1] = pos + 1
+                    got[(sid, pos)] = st.value.args[0]
+                elif r in segs and m == 'set' and len(st.value.args) == 2 and isinstance(A.const(st.value.args[0]), str):
+                    d = A.const(st.value.args[0])
+                    sid = segs[r][0]
+                    if d.startswith(sid):
+                        d = d[len(sid):]
+                    if d[:2].isdigit():
+                        got[(sid, int(d[:2]))] = st.value.args[1]
+        if not any(k[0] == 'ISA' for k in got) or not any(k[0] == 'GS' for k in got):
+            raise AnalysisError('%s.visit_root_pre: construction of the ISA/GS of the acknowledgement not recognised' % cname)
+        for key, src in sorted(want.items()):
+            e = got.get(key)
+            reads = sorted({A.const(c.args[0]) for c in A.calls_in(e) if A.call_target(c)[1] == 'get_value' and c.args} if e is not None else [])
+            ok = reads == [src]
+            yield Ob('%s:%s.visit_root_pre %s%02d of the acknowledgement is the received %s' % (mod, cname, key[0], key[1], src), ok,
+                     ctx.floc(fn, e if e is not None else fn),
+                     '' if ok else '%s%02d is filled from %s: the acknowledgement is not addressed back to the sender of the document'
+                     % (key[0], key[1], reads or (norm(e) if e is not None else 'nothing')))
+
+
 RULES = [
     Rule('C05.R1', 'verdict True only through valid and error-count-zero edges; other exits False', r1_verdict, floor=3),
     Rule('C05.R2', 'sibling "has errors" deciders consult every stored evidence field', r2_evidence, floor=6),
@@ -564,5 +606,6 @@ RULES = [
     Rule('C05.R8', 'shared with C04.R1: the received-set count the acknowledgement reports is the reader\'s, counted unconditionally', r8_shared_reader_counts, floor=37),
     Rule('C05.R9', 'reader errors are handed to the error tree before the loop they concern is closed', r9_reader_errors_before_close, floor=3),
     Rule('C05.R10', 'AK401/IK401 carry element, component and repetition position each in its own place', r10_element_position, floor=4),
+    Rule('C05.R12', 'ISA05-08 / GS02-03 of the acknowledgement are the received receiver and sender, swapped', r12_addressed_to_sender, floor=9),
     Rule('C05.R11', 'errors on SE/GE themselves are reflected in the set/group code (validated before close, or code evaluated when read)', r11_trailer_errors_count, floor=2),
 ]
